@@ -266,6 +266,7 @@ func c07Fragments(n int) []string {
 }
 
 func c07Run(c *core.Ctx) {
+	processWarmup(c)
 	c07Long(c)
 	quotes := []string{"'", "\""}
 	B := func(fam string) *c07Batcher { return &c07Batcher{c: c, fam: fam} }
